@@ -85,3 +85,40 @@ extern "C" void h_egrid_index(void) {
     bool threw = false; try { g->ijk_from_active_index(na); } catch (const std::invalid_argument&) { threw = true; } CHECK(threw);
     threw = false; try { g->global_index(ENX, 0, 0); } catch (const std::invalid_argument&) { threw = true; } CHECK(threw);
 }
+
+// DXV/DYV/DZV/DEPTHZ: the generated corner-point grid has, for cell (i,j,k), its eight corners on the DEPTHZ surface of the four
+// surrounding nodes shifted down by the layer thicknesses above (top face) and by the layer itself (bottom face)
+extern "C" void h_depthz(void) {
+    double dxv[GNX], dyv[GNY], dzv[GNZ], depthz[(GNX + 1) * (GNY + 1)];
+    for (auto& v : dxv) { v = verif_nondet_real(); ASSUME(v > 0); } for (auto& v : dyv) { v = verif_nondet_real(); ASSUME(v > 0); } for (auto& v : dzv) { v = verif_nondet_real(); ASSUME(v > 0); }
+    for (auto& v : depthz) v = verif_nondet_real();
+    Opm::EclipseGrid helper(Opm::GridDims(GNX, GNY, GNZ));
+    std::vector<double> vx(dxv, dxv + GNX), vy(dyv, dyv + GNY), vz(dzv, dzv + GNZ), dz(depthz, depthz + (GNX + 1) * (GNY + 1));
+    std::vector<double> coord = helper.makeCoordDxvDyvDzvDepthz(vx, vy, vz, dz), zcorn = helper.makeZcornDzvDepthz(vz, dz);
+    CHECK(coord.size() == (GNX + 1) * (GNY + 1) * 6 && zcorn.size() == (size_t) GNX * GNY * GNZ * 8);
+    Opm::EclipseGrid g({ GNX, GNY, GNZ }, coord, zcorn, nullptr);
+    double x0 = 0;
+    for (int i = 0; i < GNX; ++i) { double y0 = 0; for (int j = 0; j < GNY; ++j) { double zoff = 0; for (int k = 0; k < GNZ; ++k) {
+        std::array<double, 8> X, Y, Z; g.getCellCorners({ i, j, k }, { GNX, GNY, GNZ }, X, Y, Z);
+        for (int c = 0; c < 8; ++c) {
+            const int di = c & 1, dj = (c >> 1) & 1, dk = c >> 2;
+            CEQ(X[c], x0 + di * dxv[i]); CEQ(Y[c], y0 + dj * dyv[j]);                                   // vertical pillars
+            CEQ(Z[c], depthz[(i + di) + (j + dj) * (GNX + 1)] + zoff + dk * dzv[k]);                    // node depth of ITS OWN pillar
+        }
+        zoff += dzv[k]; } y0 += dyv[j]; } x0 += dxv[i]; }
+}
+// inclined pillars: the corner of a cell lies on its pillar at the corner depth: linear interpolation of x AND y between the pillar's end points
+extern "C" void h_pillars(void) {
+    double coord[4 * 6], zc[8];
+    for (auto& v : coord) v = verif_nondet_real(); for (auto& v : zc) v = verif_nondet_real();
+    for (int p = 0; p < 4; ++p) ASSUME(coord[6 * p + 5] > coord[6 * p + 2]);                           // pillar bottom below its top
+    for (int c = 0; c < 4; ++c) ASSUME(zc[c + 4] >= zc[c]);                                            // bottom corners not above the top corners (the constructor repairs inverted ZCORN columns)
+    Opm::EclipseGrid g({ 1, 1, 1 }, std::vector<double>(coord, coord + 24), std::vector<double>(zc, zc + 8), nullptr);
+    std::array<double, 8> X, Y, Z; g.getCellCorners({ 0, 0, 0 }, { 1, 1, 1 }, X, Y, Z);
+    for (int c = 0; c < 8; ++c) {
+        const double* P = coord + 6 * (c & 3);                                                        // corner c sits on pillar c mod 4
+        CEQ(Z[c], zc[c]);
+        const double t = (zc[c] - P[2]) / (P[5] - P[2]);
+        CEQ(X[c], P[0] + t * (P[3] - P[0])); CEQ(Y[c], P[1] + t * (P[4] - P[1]));
+    }
+}
